@@ -87,6 +87,7 @@ static void case_reset(void)
   srv_tx_hook                                  = mon_net_tx;
   srv_cookie_hook                              = NULL;
   srv_frame_hook                               = NULL;
+  srv_sent_hook                                = NULL;
   srv_built_hook                               = NULL;
   srv_cookie_built_hook                        = NULL;
   sim_read_hook                                = NULL;
@@ -99,6 +100,8 @@ static void case_reset(void)
   mon_enable_idx = mon_enable_fd = mon_enable_net = mon_enable_timer = 1;
   net_unique_names                                                   = 1;
   sim_no_subms_jitter                                                = 0;
+  sim_answer_auth_soa_ttl                                            = 0;
+  sim_fin_delay_us                                                   = 0;
   sim_zerolen_with_udp_reply                                         = 0;
   sim_fifo_events                                                    = 0;
   memset(&app_sched, 0, sizeof(app_sched));
